@@ -1,10 +1,13 @@
 import Proofs.NamespaceC15
 import Proofs.NamespaceBook
 import Proofs.NamespaceExample
+import Proofs.RootInfer
 /-! C15 - name, version and port-ID are exactly those encoded in the file path.
     `Ns.parseFileName` / `Ns.mkDef` model `DSDLDefinition.__init__`, `Ns.finalize` the hand-over to the composite.
-    Not under a theorem (correspondence only): the four root-inference strategies of
-    `_infer_path_to_root_from_first_found`, `pathlib` resolution, the working directory. -/
+    Second half of the file: the root inference of `read_files` (`Model/RootInfer.lean`: the four inferences of
+    `_infer_path_to_root_from_first_found`, `from_first_in`, lexical `pathlib` resolution against a working directory over
+    an abstract file system) returns the same (root, file) for every way of designating the root.
+    Not under a theorem (correspondence only): symbolic links. -/
 open Ns
 
 /-- `[<port-id>.]<ShortName>.<major>.<minor>.<ext>` is parsed back to exactly its components. -/
@@ -159,3 +162,437 @@ example := C15.result_identity Example.fs ["w", "ns"] [["w", "other"]] true fals
 open Ns.Example in
 example := C15.result_identity_files Example.fs [eA] [] [["w", "other"]] false [TA] [TB] [] [dA true] (by simp [mapMDefs, mkA]) evalFiles
 end NonVacuity
+
+/-! ## The root inference of `read_files`: every designation of the root gives the same (root directory, file)
+
+    `R` is the root namespace directory, the definition file is `R ++ sub ++ [fname]`; both are absolute and normalised.
+    `RootInfer.fromFirstIn fs cwd target roots` models `DSDLDefinition.from_first_in` called with the working directory
+    `cwd`: INFERENCE 1-4 of `_infer_path_to_root_from_first_found`, the anchoring of a relative target, and the checks of
+    `DSDLDefinition.__init__` that come before the file name is parsed. -/
+namespace C15
+open RootInfer hiding resolve Err
+
+/-- What is assumed of the designated file throughout: the file system is one (what has an entry is a directory), the
+    file exists, its path is normalised (the working directory too is always taken normalised). -/
+structure Designated (fs : FS) (R sub : List String) (fname : String) : Prop where
+  wf : fs.WF
+  file : fs.has (R ++ sub ++ [fname]) = true
+  noDD : ".." ∉ R ++ sub ++ [fname]
+
+end C15
+
+open RootInfer hiding resolve Err in
+/-- THE GENERAL FORM for a target that is absolute or relative to the working directory, spelled in any way (`..`, `.`):
+    if the target resolves to the file, some listed root - absolute, relative to the working directory, `.`, with `..`,
+    or a bare name that happens to be a directory of the working directory - resolves to `R`, and `R` is the only
+    directory above the file that a listed root resolves to (no nested roots), the result is exactly (R, file);
+    whatever else is listed, in whatever order. -/
+theorem C15.designation_resolved {fs : FS} {R sub : List String} {fname : String} (hd : C15.Designated fs R sub fname)
+    (hdot : Ns.hasDot (R.getLast?.getD "") = false) (cwd : AbsPath) (t : RootInfer.Path) (roots : List RootInfer.Path)
+    (hcwd : ".." ∉ cwd) (ht : RootInfer.resolve cwd t = R ++ sub ++ [fname])
+    (hmem : ∃ r ∈ roots, RootInfer.resolve cwd r = R)
+    (honly : ∀ r ∈ roots, RootInfer.resolve cwd r <+: R ++ sub ++ [fname] → RootInfer.resolve cwd r = R) :
+    fromFirstIn fs cwd t roots = .ok (R, R ++ sub ++ [fname]) := by
+  have hRF : R <+: R ++ sub ++ [fname] := ⟨sub ++ [fname], by simp⟩
+  obtain ⟨r', h2, hr'⟩ := inference2_resolved hcwd ht hRF roots hmem honly
+  have hfound : foundAsGiven fs cwd t = true := by
+    unfold foundAsGiven; rw [ht, hd.file]; simp
+  have hne : roots.isEmpty = false := by
+    obtain ⟨r, hr, _⟩ := hmem
+    cases roots with
+    | nil => cases hr
+    | cons _ _ => rfl
+  simp only [fromFirstIn, inferRoot, hne, Bool.false_eq_true, if_false, hfound, h2]
+  exact finish_here hr' ht hd.file hRF hdot
+
+open RootInfer hiding resolve Err in
+/-- DESIGNATION 1 - the root as an absolute path, the target absolute; other roots may be listed before and after it as long
+    as none of them resolves to another directory above the file. -/
+theorem C15.designation_absolute_root {fs : FS} {R sub : List String} {fname : String} (hd : C15.Designated fs R sub fname)
+    (hdot : Ns.hasDot (R.getLast?.getD "") = false) (cwd : AbsPath) (hcwd : ".." ∉ cwd) (pre post : List RootInfer.Path)
+    (honly : ∀ r ∈ pre ++ post, RootInfer.resolve cwd r <+: R ++ sub ++ [fname] → RootInfer.resolve cwd r = R) :
+    fromFirstIn fs cwd ⟨true, R ++ sub ++ [fname]⟩ (pre ++ ⟨true, R⟩ :: post) = .ok (R, R ++ sub ++ [fname]) := by
+  have hR : ".." ∉ R := fun h => hd.noDD (by simp [h])
+  have hres : RootInfer.resolve cwd ⟨true, R⟩ = R := resolve_abs_of_noDD hR cwd
+  apply C15.designation_resolved hd hdot cwd _ _ hcwd (resolve_abs_of_noDD hd.noDD cwd) ⟨_, by simp, hres⟩
+  intro r hr hp
+  rcases List.mem_append.1 hr with h | h
+  · exact honly r (List.mem_append_left _ h) hp
+  · rcases List.mem_cons.1 h with rfl | h
+    · exact hres
+    · exact honly r (List.mem_append_right _ h) hp
+
+open RootInfer hiding resolve Err in
+/-- DESIGNATION 2 - the root as a path relative to the working directory (`cwd ++ rel = R`), the target relative to the
+    working directory too (the first example of the docstring of `read_files`). -/
+theorem C15.designation_relative_root {fs : FS} {sub : List String} {fname : String} (cwd rel : List String)
+    (hd : C15.Designated fs (cwd ++ rel) sub fname) (hdot : Ns.hasDot ((cwd ++ rel).getLast?.getD "") = false)
+    (pre post : List RootInfer.Path)
+    (honly : ∀ r ∈ pre ++ post, RootInfer.resolve cwd r <+: cwd ++ rel ++ sub ++ [fname] → RootInfer.resolve cwd r = cwd ++ rel) :
+    fromFirstIn fs cwd ⟨false, rel ++ sub ++ [fname]⟩ (pre ++ ⟨false, rel⟩ :: post) = .ok (cwd ++ rel, cwd ++ rel ++ sub ++ [fname]) := by
+  have hcwd : ".." ∉ cwd := fun h => hd.noDD (by simp [h])
+  have hrel : ".." ∉ rel := fun h => hd.noDD (by simp [h])
+  have ht' : ".." ∉ rel ++ sub ++ [fname] := fun h => hd.noDD (by
+    simp only [List.mem_append] at h ⊢; grind)
+  have hres : RootInfer.resolve cwd ⟨false, rel⟩ = cwd ++ rel := resolve_rel_noDD hrel cwd
+  have ht : RootInfer.resolve cwd ⟨false, rel ++ sub ++ [fname]⟩ = cwd ++ rel ++ sub ++ [fname] := by
+    rw [resolve_rel_noDD ht']; simp
+  apply C15.designation_resolved hd hdot cwd _ _ hcwd ht ⟨_, by simp, hres⟩
+  intro r hr hp
+  rcases List.mem_append.1 hr with h | h
+  · exact honly r (List.mem_append_left _ h) hp
+  · rcases List.mem_cons.1 h with rfl | h
+    · exact hres
+    · exact honly r (List.mem_append_right _ h) hp
+
+open RootInfer hiding resolve Err in
+/-- DESIGNATION 3 - the target relative to the directory that holds the root (`n/sub/fname`, `R = Rp ++ [n]`), the root as a
+    path (absolute or relative to the working directory, without `..`), the working directory elsewhere.
+    Side conditions the code needs: the target does not exist as given in the working directory (`hnot`; otherwise it is
+    read relative to the working directory, see `C15.designation_resolved`), and among the listed roots NAMED `n` the relative
+    target exists under the parent of `R` only (`hone`; otherwise the first such root wins).  Whatever else is listed - the bare
+    name of the root, relative roots that are lexical prefixes of the target (since /repo 418aff7 the lexical match of a target
+    that does not exist as given is only a fallback after INFERENCE 3), roots of other names whose ancestors are named `n` and
+    hold the same relative path (since /repo 772b846 the parents of a root are not tried) - does not matter. -/
+theorem C15.designation_root_parent_relative {fs : FS} {Rp sub : List String} {n fname : String}
+    (hd : C15.Designated fs (Rp ++ [n]) sub fname) (hdot : Ns.hasDot n = false) (cwd : AbsPath) (roots : List RootInfer.Path)
+    (hnot : fs.has (cwd ++ n :: (sub ++ [fname])) = false)
+    (hmem : ∃ r ∈ roots, r.parts ≠ [] ∧ ".." ∉ r.parts ∧ RootInfer.resolve cwd r = Rp ++ [n])
+    (hone : ∀ r ∈ roots, r.pyParts.getLast? = some n →
+      fs.has (RootInfer.resolve cwd (r.parent.join ⟨false, n :: (sub ++ [fname])⟩)) = true → RootInfer.resolve cwd r = Rp ++ [n]) :
+    fromFirstIn fs cwd ⟨false, n :: (sub ++ [fname])⟩ roots = .ok (Rp ++ [n], Rp ++ [n] ++ sub ++ [fname]) := by
+  have hF : fs.has (Rp ++ n :: (sub ++ [fname])) = true := by simpa using hd.file
+  have hn : n ≠ ".." := fun e => hd.noDD (by simp [e])
+  have hrest : ".." ∉ sub ++ [fname] := fun h => hd.noDD (by simp only [List.mem_append] at h ⊢; grind)
+  have hnr : ".." ∉ n :: (sub ++ [fname]) := by
+    intro hm; rcases List.mem_cons.1 hm with e | e
+    · exact hn e.symm
+    · exact hrest e
+  have hres : RootInfer.resolve cwd ⟨false, n :: (sub ++ [fname])⟩ = cwd ++ n :: (sub ++ [fname]) := resolve_rel_noDD hnr cwd
+  have hnot : fs.has (RootInfer.resolve cwd ⟨false, n :: (sub ++ [fname])⟩) = false := by rw [hres]; exact hnot
+  have hfound : foundAsGiven fs cwd ⟨false, n :: (sub ++ [fname])⟩ = false := by simp [foundAsGiven, hnot]
+  obtain ⟨p, h3, hp, hj⟩ := inference3_welded hd.wf hn hrest hF roots hone hmem
+  have hne' : roots.isEmpty = false := by
+    obtain ⟨r, hr, _⟩ := hmem
+    cases roots with
+    | nil => cases hr
+    | cons _ _ => rfl
+  simp only [fromFirstIn, inferRoot, inference3IfRelative, hne', hfound, inference2_not_found, Bool.false_eq_true,
+    Bool.false_and, Bool.or_self, if_false, h3]
+  have hRF : Rp ++ [n] <+: Rp ++ [n] ++ sub ++ [fname] := ⟨sub ++ [fname], by simp⟩
+  exact finish_anchored hp rfl hnot (by rw [hj]; simp) hd.file hRF (by simpa using hdot)
+
+open RootInfer hiding resolve Err in
+/-- DESIGNATION 4 - the root by its bare name `n`; the target (absolute: `a = true`, or relative to the working directory)
+    has the components `pre ++ [n] ++ sub ++ [fname]`, the directory `pre ++ [n]` being `R`.
+    Side conditions the code needs: no listed bare name occurs in `pre` (the FIRST bare name on the typed path wins) and no
+    listed root read as a path lies above the file (`hno`; then INFERENCE 2 decides, see `C15.designation_resolved`).  Other
+    roots may be listed as paths of any shape (since /repo 866a874 a relative target that exists as given and has a bare
+    root name on its path is not welded onto the parents of those paths). -/
+theorem C15.designation_bare_name {fs : FS} {R sub : List String} {fname : String} (hd : C15.Designated fs R sub fname)
+    (hdot : Ns.hasDot (R.getLast?.getD "") = false) (cwd : AbsPath) (a : Bool) (pre : List String) (n : String)
+    (roots : List RootInfer.Path) (hR : (if a then [] else cwd) ++ pre ++ [n] = R)
+    (hbare : (⟨false, [n]⟩ : RootInfer.Path) ∈ roots)
+    (hno : ∀ r ∈ roots, ¬ RootInfer.resolve cwd r <+: R ++ sub ++ [fname])
+    (hfirst : ∀ c ∈ pre, c ∉ rootNames roots) (hslash : a = true → "/" ∉ rootNames roots) :
+    fromFirstIn fs cwd ⟨a, pre ++ n :: (sub ++ [fname])⟩ roots = .ok (R, R ++ sub ++ [fname]) := by
+  have hRF : R <+: R ++ sub ++ [fname] := ⟨sub ++ [fname], by simp⟩
+  have hF : (if a then [] else cwd) ++ (pre ++ n :: (sub ++ [fname])) = R ++ sub ++ [fname] := by rw [← hR]; simp
+  have htp : ".." ∉ pre ++ n :: (sub ++ [fname]) := fun h => hd.noDD (by rw [← hF]; exact List.mem_append_right _ h)
+  have hpn : ".." ∉ pre ++ [n] := fun h => hd.noDD (by
+    rw [← hR]; simp only [List.mem_append] at h ⊢; grind)
+  have ht : RootInfer.resolve cwd ⟨a, pre ++ n :: (sub ++ [fname])⟩ = R ++ sub ++ [fname] := by
+    rw [resolve_noDD htp]; exact hF
+  have hfound : foundAsGiven fs cwd ⟨a, pre ++ n :: (sub ++ [fname])⟩ = true := by
+    unfold foundAsGiven; rw [ht, hd.file]; simp
+  have h2 : inference2 true cwd ⟨a, pre ++ n :: (sub ++ [fname])⟩ roots = none :=
+    inference2_none true roots (by rw [ht]; exact hno)
+  have hpar : (pre ++ n :: (sub ++ [fname])).dropLast = pre ++ n :: sub := by
+    rw [show pre ++ n :: (sub ++ [fname]) = (pre ++ n :: sub) ++ [fname] by simp, List.dropLast_concat]
+  have hnm : n ∈ rootNames roots := bare_mem_rootNames hbare (fun e => hpn (by simp [e]))
+  have h3 : inference3IfRelative fs cwd true ⟨a, pre ++ n :: (sub ++ [fname])⟩ roots = .ok none := by
+    unfold inference3IfRelative
+    rw [if_pos]
+    cases a with
+    | true => rfl
+    | false =>
+      simp only [Bool.false_or, Bool.true_and, Path.parent, Path.pyParts, Bool.false_eq_true, if_false, hpar,
+        List.any_eq_true, List.contains_eq_mem, decide_eq_true_eq]
+      exact ⟨n, by simp, hnm⟩
+  have h4 : inference4 ⟨a, pre ++ n :: (sub ++ [fname])⟩ roots = some ⟨a, pre ++ [n]⟩ := by
+    have hs : (a && (rootNames roots).contains "/") = false := by
+      cases a with
+      | false => rfl
+      | true => simpa using hslash rfl
+    simp only [inference4, hs, Bool.false_eq_true, if_false, Path.parent, hpar]
+    rw [firstHit_spec hnm pre sub [] hfirst]
+    simp
+  have hne : roots.isEmpty = false := by
+    cases roots with
+    | nil => cases hbare
+    | cons _ _ => rfl
+  have hroot : RootInfer.resolve cwd ⟨a, pre ++ [n]⟩ = R := by
+    rw [resolve_noDD hpn, ← hR]; simp
+  simp only [fromFirstIn, inferRoot, hne, Bool.false_eq_true, if_false, hfound, h2, h3, lexicalMatch, if_true, h4]
+  exact finish_here hroot ht hd.file hRF hdot
+
+open RootInfer hiding resolve Err in
+/-- DESIGNATION 5 - no roots at all; the working directory is the directory that holds the root, the target starts with the
+    root's name (INFERENCE 1). -/
+theorem C15.designation_no_roots {fs : FS} {Rp sub : List String} {n fname : String}
+    (hd : C15.Designated fs (Rp ++ [n]) sub fname) (hdot : Ns.hasDot n = false) :
+    fromFirstIn fs Rp ⟨false, n :: (sub ++ [fname])⟩ [] = .ok (Rp ++ [n], Rp ++ [n] ++ sub ++ [fname]) := by
+  have hn : n ≠ ".." := fun e => hd.noDD (by simp [e])
+  have hnr : ".." ∉ n :: (sub ++ [fname]) := fun h => hd.noDD (by
+    simp only [List.mem_append, List.mem_cons] at h ⊢; grind)
+  have hdir : fs.isDir (Rp ++ [n]) = true := hd.wf.isDir_prefix (Rp ++ [n]) (sub ++ [fname]) (by simp) (by simpa using hd.file)
+  have hex : physExists fs Rp ⟨false, [n]⟩ = true := by
+    unfold physExists
+    exact walk_noDD hd.wf (by simpa using hn.symm) Rp (hd.wf.dirHas _ hdir)
+  simp only [fromFirstIn, inferRoot, List.isEmpty_nil, if_true, Bool.false_eq_true, if_false, hex]
+  have hRF : Rp ++ [n] <+: Rp ++ [n] ++ sub ++ [fname] := ⟨sub ++ [fname], by simp⟩
+  refine finish_here (R := Rp ++ [n]) ?_ ?_ hd.file hRF (by simpa using hdot)
+  · exact resolve_rel_noDD (by simpa using hn.symm) Rp
+  · rw [resolve_rel_noDD hnr]; simp
+
+/-- The designations covered by the five theorems, as a relation between a working directory, a target and a root list. -/
+inductive C15.Designates (fs : RootInfer.FS) (R sub : List String) (fname : String) :
+    RootInfer.AbsPath → RootInfer.Path → List RootInfer.Path → Prop
+  | resolved (cwd t roots) (hcwd : ".." ∉ cwd) (ht : RootInfer.resolve cwd t = R ++ sub ++ [fname])
+      (hmem : ∃ r ∈ roots, RootInfer.resolve cwd r = R)
+      (honly : ∀ r ∈ roots, RootInfer.resolve cwd r <+: R ++ sub ++ [fname] → RootInfer.resolve cwd r = R) :
+      C15.Designates fs R sub fname cwd t roots
+  | rootParentRelative (Rp n cwd roots) (hR : R = Rp ++ [n]) (hnot : fs.has (cwd ++ n :: (sub ++ [fname])) = false)
+      (hmem : ∃ r ∈ roots, r.parts ≠ [] ∧ ".." ∉ r.parts ∧ RootInfer.resolve cwd r = Rp ++ [n])
+      (hone : ∀ r ∈ roots, r.pyParts.getLast? = some n →
+        fs.has (RootInfer.resolve cwd (r.parent.join ⟨false, n :: (sub ++ [fname])⟩)) = true → RootInfer.resolve cwd r = Rp ++ [n]) :
+      C15.Designates fs R sub fname cwd ⟨false, n :: (sub ++ [fname])⟩ roots
+  | bareName (cwd a pre n roots) (hR : (if a then [] else cwd) ++ pre ++ [n] = R)
+      (hbare : (⟨false, [n]⟩ : RootInfer.Path) ∈ roots)
+      (hno : ∀ r ∈ roots, ¬ RootInfer.resolve cwd r <+: R ++ sub ++ [fname])
+      (hfirst : ∀ c ∈ pre, c ∉ RootInfer.rootNames roots) (hslash : a = true → "/" ∉ RootInfer.rootNames roots) :
+      C15.Designates fs R sub fname cwd ⟨a, pre ++ n :: (sub ++ [fname])⟩ roots
+  | noRoots (Rp n) (hR : R = Rp ++ [n]) : C15.Designates fs R sub fname Rp ⟨false, n :: (sub ++ [fname])⟩ []
+
+open RootInfer hiding resolve Err in
+/-- every covered designation yields exactly the root directory and the file -/
+theorem C15.designation_sound {fs : FS} {R sub : List String} {fname : String} (hd : C15.Designated fs R sub fname)
+    (hdot : Ns.hasDot (R.getLast?.getD "") = false) {cwd : AbsPath} {t : RootInfer.Path} {roots : List RootInfer.Path}
+    (h : C15.Designates fs R sub fname cwd t roots) : fromFirstIn fs cwd t roots = .ok (R, R ++ sub ++ [fname]) := by
+  cases h with
+  | resolved _ _ _ hcwd ht hmem honly => exact C15.designation_resolved hd hdot cwd t roots hcwd ht hmem honly
+  | rootParentRelative Rp n _ _ hR hnot hmem hone =>
+    subst hR
+    exact C15.designation_root_parent_relative hd (by simpa using hdot) cwd roots hnot hmem hone
+  | bareName _ a pre n _ hR hbare hno hfirst hslash =>
+    exact C15.designation_bare_name hd hdot cwd a pre n roots hR hbare hno hfirst hslash
+  | noRoots Rp n hR =>
+    subst hR
+    exact C15.designation_no_roots hd (by simpa using hdot)
+
+open RootInfer hiding resolve Err in
+/-- THE MAPPING IS THE SAME HOWEVER THE ROOT IS DESIGNATED: any two covered designations of one file - from different working
+    directories, with different spellings of the target and different root lists - give the same outcome, which is the
+    root directory and the file. -/
+theorem C15.designations_agree {fs : FS} {R sub : List String} {fname : String} (hd : C15.Designated fs R sub fname)
+    (hdot : Ns.hasDot (R.getLast?.getD "") = false) {cwd₁ cwd₂ : AbsPath} {t₁ t₂ : RootInfer.Path}
+    {roots₁ roots₂ : List RootInfer.Path} (h₁ : C15.Designates fs R sub fname cwd₁ t₁ roots₁)
+    (h₂ : C15.Designates fs R sub fname cwd₂ t₂ roots₂) :
+    fromFirstIn fs cwd₁ t₁ roots₁ = fromFirstIn fs cwd₂ t₂ roots₂ ∧ fromFirstIn fs cwd₁ t₁ roots₁ = .ok (R, R ++ sub ++ [fname]) := by
+  rw [C15.designation_sound hd hdot h₁, C15.designation_sound hd hdot h₂]; exact ⟨rfl, rfl⟩
+
+open RootInfer hiding resolve Err in
+/-- ... and so is the identity: the definition object built for the designated target is the one `DSDLDefinition.__init__`
+    builds from the file's path relative to `R` - full name, version, port-ID, file path and root directory as spelled out by
+    `C15.def_identity` - for every covered designation. -/
+theorem C15.designation_identity {fs : FS} {R sub : List String} {fname : String} (hd : C15.Designated fs R sub fname)
+    {cwd : AbsPath} {t : RootInfer.Path} {roots : List RootInfer.Path} (h : C15.Designates fs R sub fname cwd t roots)
+    (text : Ns.Text) (d : Ns.Def) (hm : Ns.mkDef true ⟨R, sub, String.ofList fname.toList, text⟩ = .ok d) :
+    definitionOf fs cwd t roots text = .ok d ∧ d.path = R ++ sub ++ [fname] ∧ d.root = R := by
+  have hfn : String.ofList fname.toList = fname := by simp
+  rw [hfn] at hm
+  have hdot : Ns.hasDot (R.getLast?.getD "") = false := by
+    unfold Ns.mkDef at hm
+    simp only at hm
+    split at hm
+    · cases hm
+    · rename_i hnd; simpa using hnd
+  obtain ⟨_, _, _, _, _, _, hp, hr⟩ := C15.def_identity true _ d hm
+  refine ⟨?_, by simpa using hp, hr⟩
+  simp only [definitionOf, C15.designation_sound hd hdot h, entryOf_spec, hm]
+
+/-- every target of a `read_files` call designates its file in one of the covered ways (all with the one root list) and
+    that file has a well-formed name: `ds` are the definitions of those files under their root directories -/
+inductive C15.AllDesignate (fs : RootInfer.FS) (cwd : RootInfer.AbsPath) (roots : List RootInfer.Path) (text : Ns.Text) :
+    List RootInfer.Path → List Ns.Def → Prop
+  | nil : C15.AllDesignate fs cwd roots text [] []
+  | cons {t ts d ds} (R sub fname) (hd : C15.Designated fs R sub fname) (h : C15.Designates fs R sub fname cwd t roots)
+      (hm : Ns.mkDef true ⟨R, sub, String.ofList fname.toList, text⟩ = .ok d) (rest : C15.AllDesignate fs cwd roots text ts ds) :
+      C15.AllDesignate fs cwd roots text (t :: ts) (d :: ds)
+
+open RootInfer hiding resolve Err in
+/-- `_construct_dsdl_definitions_from_files`: the definitions built for the targets are exactly the definitions of the
+    designated files under their root directories - the `targets : List FileEntry` "with the root inferred" that
+    `Ns.readFiles` starts from. -/
+theorem C15.read_files_targets {fs : FS} {cwd : AbsPath} {roots : List RootInfer.Path} (text : Ns.Text)
+    {targets : List RootInfer.Path} {ds : List Ns.Def} (h : C15.AllDesignate fs cwd roots text targets ds) :
+    mapDefs fs cwd roots text targets = .ok ds := by
+  induction h with
+  | nil => rfl
+  | cons R sub fname h1 h2 h3 _ ih =>
+    simp only [mapDefs, (C15.designation_identity h1 h2 text _ h3).1, ih]
+
+/-! ### The tree of the docstring of `read_files` (below a directory `T`): the two designations that were NOT handled
+    uniformly before /repo 418aff7, 866a874 and 772b846 (former findings F15, F14, F16) as positive statements, and examples -/
+namespace C15.Doc
+open RootInfer hiding resolve Err
+
+def types : List String := ["T", "workspace", "project", "types"]
+def animals : List String := types ++ ["animals"]
+def plants : List String := types ++ ["plants"]
+def tabby : List String := animals ++ ["felines", "Tabby.1.0.dsdl"]
+def fs : FS := FS.ofLists
+  [[], ["T"], ["T", "workspace"], ["T", "workspace", "project"], types, animals, animals ++ ["felines"], plants, plants ++ ["trees"]]
+  [tabby, plants ++ ["trees", "DouglasFir.1.0.dsdl"]]
+
+theorem designated : C15.Designated fs animals ["felines"] "Tabby.1.0.dsdl" :=
+  ⟨FS.ofLists_WF (by decide), by decide, by decide⟩
+theorem nodot : Ns.hasDot (animals.getLast?.getD "") = false := by decide
+
+end C15.Doc
+
+open RootInfer hiding resolve Err in
+open C15.Doc in
+/-- UNIFORM NOW (was finding F14, repaired by /repo 866a874): the working-directory-relative target of the docstring of
+    `read_files` with each of the three documented root forms - both roots as bare names, both as paths, a bare name for one
+    root and a path for the other (in both orders, the other path existing or not) - gives `.../types/animals` and the file.
+    Before the repair the mixed form returned `T/workspace` (INFERENCE 3 welded the target onto a parent of the `plants` path).
+    Instances of `C15.designation_bare_name` (which lost its hypothesis `hweld`) and `C15.designation_relative_root`. -/
+theorem C15.mixed_names_and_paths_uniform :
+    fromFirstIn fs ["T"] ⟨false, tabby.drop 1⟩ [⟨false, ["animals"]⟩, ⟨false, ["plants"]⟩] = .ok (animals, tabby) ∧
+    fromFirstIn fs ["T"] ⟨false, tabby.drop 1⟩ [⟨false, animals.drop 1⟩, ⟨false, plants.drop 1⟩] = .ok (animals, tabby) ∧
+    fromFirstIn fs ["T"] ⟨false, tabby.drop 1⟩ [⟨false, ["animals"]⟩, ⟨false, plants.drop 1⟩] = .ok (animals, tabby) ∧
+    fromFirstIn fs ["T"] ⟨false, tabby.drop 1⟩ [⟨false, plants.drop 1⟩, ⟨false, ["animals"]⟩] = .ok (animals, tabby) ∧
+    fromFirstIn fs ["T"] ⟨false, tabby.drop 1⟩ [⟨false, ["animals"]⟩, ⟨false, ["workspace", "project", "types", "nonexistent"]⟩]
+      = .ok (animals, tabby) := by
+  have bare := fun roots h1 h2 h3 h4 h5 =>
+    C15.designation_bare_name designated nodot ["T"] false ["workspace", "project", "types"] "animals" roots h1 h2 h3 h4 h5
+  refine ⟨bare _ (by decide) (by decide) (by decide) (by decide) (by decide), ?_,
+    bare _ (by decide) (by decide) (by decide) (by decide) (by decide),
+    bare _ (by decide) (by decide) (by decide) (by decide) (by decide),
+    bare _ (by decide) (by decide) (by decide) (by decide) (by decide)⟩
+  exact C15.designation_relative_root ["T"] (animals.drop 1) designated nodot [] [⟨false, plants.drop 1⟩] (by decide)
+
+open RootInfer hiding resolve Err in
+open C15.Doc in
+/-- UNIFORM NOW (was finding F15, repaired by /repo 418aff7): a target relative to the directory that holds its root, the root
+    given as a path - alone, or with the bare name of the root listed as well, before or after it.  Before the repair the
+    bare name won the "as-is" match of INFERENCE 2 and the call failed with "file that doesn't exist".
+    Instances of `C15.designation_root_parent_relative` (which lost its hypothesis `hlex`). -/
+theorem C15.bare_name_with_root_path_uniform :
+    fromFirstIn fs ["T"] ⟨false, tabby.drop 4⟩ [⟨false, animals.drop 1⟩] = .ok (animals, tabby) ∧
+    fromFirstIn fs ["T"] ⟨false, tabby.drop 4⟩ [⟨false, animals.drop 1⟩, ⟨false, ["animals"]⟩] = .ok (animals, tabby) ∧
+    fromFirstIn fs ["T"] ⟨false, tabby.drop 4⟩ [⟨false, ["animals"]⟩, ⟨false, animals.drop 1⟩] = .ok (animals, tabby) ∧
+    fromFirstIn fs ["T"] ⟨false, tabby.drop 4⟩ [⟨false, ["animals"]⟩, ⟨false, ["animals", "felines"]⟩, ⟨true, animals⟩] = .ok (animals, tabby) := by
+  have rp := fun roots h1 h2 =>
+    C15.designation_root_parent_relative (Rp := types) (n := "animals") designated (by decide) ["T"] roots (by decide) h1 h2
+  exact ⟨rp _ ⟨⟨false, animals.drop 1⟩, by decide, by decide, by decide, by decide⟩ (by decide),
+    rp _ ⟨⟨false, animals.drop 1⟩, by decide, by decide, by decide, by decide⟩ (by decide),
+    rp _ ⟨⟨false, animals.drop 1⟩, by decide, by decide, by decide, by decide⟩ (by decide),
+    rp _ ⟨⟨true, animals⟩, by decide, by decide, by decide, by decide⟩ (by decide)⟩
+
+/-- What is still NOT uniform, on purpose (documented "first match wins" / pure-path fallback): a target relative to the
+    directory that holds its root when the root is given by its bare name ONLY and the working directory is elsewhere - the
+    lexical fallback takes the name for a directory of the working directory. -/
+theorem C15.bare_name_alone_is_relative_to_cwd :
+    RootInfer.fromFirstIn C15.Doc.fs ["T"] ⟨false, C15.Doc.tabby.drop 4⟩ [⟨false, ["animals"]⟩] = .error .notFound ∧
+    RootInfer.fromFirstIn C15.Doc.fs C15.Doc.types ⟨false, C15.Doc.tabby.drop 4⟩ [⟨false, ["animals"]⟩] = .ok (C15.Doc.animals, C15.Doc.tabby) := by
+  decide
+
+namespace C15.Nested
+open RootInfer hiding resolve Err
+/-- `x/ns/ns/animals/D.1.0.dsdl` (root `x/ns/ns`) and `x/ns/animals/D.1.0.dsdl` (root `x/ns/animals`): a directory named like
+    the root namespace above another root -/
+def fs : FS := FS.ofLists
+  [[], ["x"], ["x", "ns"], ["x", "ns", "ns"], ["x", "ns", "ns", "animals"], ["x", "ns", "animals"], ["x", "cwd"]]
+  [["x", "ns", "ns", "animals", "D.1.0.dsdl"], ["x", "ns", "animals", "D.1.0.dsdl"]]
+theorem designated : C15.Designated fs (["x", "ns"] ++ ["ns"]) ["animals"] "D.1.0.dsdl" :=
+  ⟨FS.ofLists_WF (by decide), by decide, by decide⟩
+end C15.Nested
+
+open RootInfer hiding resolve Err in
+open C15.Nested in
+/-- UNIFORM NOW (was finding F16, repaired by /repo 772b846): the target `ns/animals/D.1.0.dsdl` given relative to `x/ns`, the
+    directory that holds the root `x/ns/ns`, with the other root `x/ns/animals` listed after it, before it, or a missing
+    directory below it listed first: always `x/ns/ns` and its file.  Before the repair INFERENCE 3 walked up the parents of the
+    other root, found its parent `x/ns` named like the first component of the target and returned `x/ns` - no listed root -
+    with the file `x/ns/animals/D.1.0.dsdl`.  Instances of `C15.designation_root_parent_relative` (whose `huniq` shrank to `hone`). -/
+theorem C15.welded_onto_listed_roots_only :
+    fromFirstIn fs ["x", "cwd"] ⟨false, ["ns", "animals", "D.1.0.dsdl"]⟩ [⟨true, ["x", "ns", "ns"]⟩, ⟨true, ["x", "ns", "animals"]⟩]
+      = .ok (["x", "ns", "ns"], ["x", "ns", "ns", "animals", "D.1.0.dsdl"]) ∧
+    fromFirstIn fs ["x", "cwd"] ⟨false, ["ns", "animals", "D.1.0.dsdl"]⟩ [⟨true, ["x", "ns", "animals"]⟩, ⟨true, ["x", "ns", "ns"]⟩]
+      = .ok (["x", "ns", "ns"], ["x", "ns", "ns", "animals", "D.1.0.dsdl"]) ∧
+    fromFirstIn fs ["x", "cwd"] ⟨false, ["ns", "animals", "D.1.0.dsdl"]⟩ [⟨true, ["x", "ns", "animals", "none"]⟩, ⟨false, ["..", "ns", "ns"]⟩, ⟨true, ["x", "ns", "ns"]⟩]
+      = .ok (["x", "ns", "ns"], ["x", "ns", "ns", "animals", "D.1.0.dsdl"]) := by
+  have rp := fun roots h1 h2 =>
+    C15.designation_root_parent_relative (Rp := ["x", "ns"]) (n := "ns") designated (by decide) ["x", "cwd"] roots (by decide) h1 h2
+  exact ⟨rp _ ⟨⟨true, ["x", "ns", "ns"]⟩, by decide, by decide, by decide, by decide⟩ (by decide),
+    rp _ ⟨⟨true, ["x", "ns", "ns"]⟩, by decide, by decide, by decide, by decide⟩ (by decide),
+    rp _ ⟨⟨true, ["x", "ns", "ns"]⟩, by decide, by decide, by decide, by decide⟩ (by decide)⟩
+
+/-- What `hone` still excludes, on purpose (documented: "the order of the valid_dsdl_roots list matters"): two listed roots of
+    one NAME under whose parents the same relative target exists - the first listed wins. -/
+theorem C15.two_roots_of_one_name_first_wins :
+    let fs := RootInfer.FS.ofLists
+      [[], ["a"], ["a", "ns"], ["b"], ["b", "ns"], ["cwd"]] [["a", "ns", "D.1.0.dsdl"], ["b", "ns", "D.1.0.dsdl"]]
+    RootInfer.fromFirstIn fs ["cwd"] ⟨false, ["ns", "D.1.0.dsdl"]⟩ [⟨true, ["a", "ns"]⟩, ⟨true, ["b", "ns"]⟩] = .ok (["a", "ns"], ["a", "ns", "D.1.0.dsdl"]) ∧
+    RootInfer.fromFirstIn fs ["cwd"] ⟨false, ["ns", "D.1.0.dsdl"]⟩ [⟨true, ["b", "ns"]⟩, ⟨true, ["a", "ns"]⟩] = .ok (["b", "ns"], ["b", "ns", "D.1.0.dsdl"]) := by
+  decide
+
+section NonVacuityDesignations
+open RootInfer hiding resolve Err
+open C15.Doc
+
+/-- absolute root among a missing directory and another root; absolute target; working directory anywhere -/
+example : fromFirstIn fs ["T", "workspace"] ⟨true, tabby⟩ ([⟨false, ["nope"]⟩] ++ ⟨true, animals⟩ :: [⟨true, plants⟩]) = .ok (animals, tabby) :=
+  C15.designation_absolute_root designated nodot ["T", "workspace"] (by decide) _ _ (by decide)
+/-- the first docstring example: everything relative to the working directory -/
+example : fromFirstIn fs ["T"] ⟨false, animals.drop 1 ++ ["felines"] ++ ["Tabby.1.0.dsdl"]⟩
+    ([] ++ ⟨false, animals.drop 1⟩ :: [⟨false, plants.drop 1⟩]) = .ok (animals, tabby) :=
+  C15.designation_relative_root ["T"] (animals.drop 1) designated nodot [] _ (by decide)
+/-- `..`, `.` and a bare name that is a directory of the working directory, through the general form -/
+example : fromFirstIn fs types ⟨false, ["plants", "..", "animals", "felines", "Tabby.1.0.dsdl"]⟩
+    [⟨false, ["..", "types", "plants"]⟩, ⟨false, ["animals"]⟩] = .ok (animals, tabby) :=
+  C15.designation_resolved designated nodot types _ _ (by decide) (by decide) ⟨⟨false, ["animals"]⟩, by decide, by decide⟩ (by decide)
+/-- the second docstring example: targets relative to the directory of the roots, roots as paths (relative and absolute) -/
+example : fromFirstIn fs ["T"] ⟨false, "animals" :: (["felines"] ++ ["Tabby.1.0.dsdl"])⟩ [⟨true, plants⟩, ⟨false, animals.drop 1⟩] = .ok (animals, tabby) :=
+  C15.designation_root_parent_relative (Rp := types) designated (by decide) ["T"] _ (by decide)
+    ⟨⟨false, animals.drop 1⟩, by decide, by decide, by decide, by decide⟩ (by decide)
+/-- bare names, relative target -/
+example : fromFirstIn fs ["T"] ⟨false, ["workspace", "project", "types"] ++ "animals" :: (["felines"] ++ ["Tabby.1.0.dsdl"])⟩
+    [⟨false, ["plants"]⟩, ⟨false, ["animals"]⟩] = .ok (animals, tabby) :=
+  C15.designation_bare_name designated nodot ["T"] false _ "animals" _ (by decide) (by decide) (by decide) (by decide) (by decide)
+/-- bare names, absolute target -/
+example : fromFirstIn fs ["T", "workspace"] ⟨true, types ++ "animals" :: (["felines"] ++ ["Tabby.1.0.dsdl"])⟩
+    [⟨false, ["animals"]⟩, ⟨false, plants.drop 1⟩] = .ok (animals, tabby) :=
+  C15.designation_bare_name designated nodot ["T", "workspace"] true _ "animals" _ (by decide) (by decide) (by decide) (by decide) (by decide)
+/-- no roots -/
+example : fromFirstIn fs types ⟨false, "animals" :: (["felines"] ++ ["Tabby.1.0.dsdl"])⟩ [] = .ok (animals, tabby) :=
+  C15.designation_no_roots (Rp := types) designated (by decide)
+/-- two designations from two working directories agree -/
+example := C15.designations_agree designated nodot
+  (C15.Designates.noRoots types "animals" rfl)
+  (C15.Designates.rootParentRelative types "animals" ["T"] [⟨true, plants⟩, ⟨false, animals.drop 1⟩] rfl (by decide)
+    ⟨⟨false, animals.drop 1⟩, by decide, by decide, by decide, by decide⟩ (by decide))
+/-- the identity of the designated definition -/
+example : definitionOf fs types ⟨false, "animals" :: (["felines"] ++ ["Tabby.1.0.dsdl"])⟩ [] Ns.Example.S =
+    .ok { tgt := true, path := tabby, root := animals, comps := ["animals", "felines", "Tabby"], name := "animals.felines.Tabby",
+          major := 1, minor := 0, fpid := none, text := Ns.Example.S } :=
+  (C15.designation_identity designated (C15.Designates.noRoots types "animals" rfl) Ns.Example.S _ (by decide)).1
+/-- the targets of one `read_files` call -/
+example := C15.read_files_targets (fs := fs) (cwd := types) (roots := []) Ns.Example.S
+  (.cons animals ["felines"] "Tabby.1.0.dsdl" designated (C15.Designates.noRoots types "animals" rfl) (by decide :
+    Ns.mkDef true ⟨animals, ["felines"], String.ofList "Tabby.1.0.dsdl".toList, Ns.Example.S⟩ = .ok
+      { tgt := true, path := tabby, root := animals, comps := ["animals", "felines", "Tabby"], name := "animals.felines.Tabby",
+        major := 1, minor := 0, fpid := none, text := Ns.Example.S }) .nil)
+end NonVacuityDesignations
